@@ -12,7 +12,9 @@ class New(mosaik_api_v3.Simulator):
     def create(self, num, model): return []
     def setup_done(self): CALLS.append(('setup_done',))
     def step(self, time, inputs, max_advance='MISSING'):
-        CALLS.append(('step', 3 if max_advance != 'MISSING' else 2)); return time + 1
+        CALLS.append(('step', 3 if max_advance != 'MISSING' else 2))
+        if time == 7: raise ValueError('boom at 7')
+        return time + 1
     def get_data(self, outputs):
         CALLS.append(('get_data', len(outputs))); return {}
 
@@ -25,6 +27,8 @@ class Old(mosaik_api_v3.Simulator):
     def create(self, num, model): return []
     def setup_done(self): CALLS.append(('setup_done',))
     def step(self, time, inputs, *extra):
-        CALLS.append(('step', 2 + len(extra))); return time + 1
+        CALLS.append(('step', 2 + len(extra)))
+        if time == 7: raise ValueError('boom at 7')
+        return time + 1
     def get_data(self, outputs):
         CALLS.append(('get_data', len(outputs))); return {}
